@@ -8,6 +8,7 @@ import (
 	"errors"
 	"fmt"
 	"os"
+	"path/filepath"
 	"sort"
 	"strings"
 	"time"
@@ -69,6 +70,17 @@ func (h *harness) dump() any {
 		l = l[len(l)-120:]
 	}
 	return map[string]any{"history": l}
+}
+
+// infra reports an error of the harness itself (never a verdict about immudb):
+// the process ends with the driver's infrastructure exit code instead of a VIOLATION.
+func (h *harness) infra(format string, args ...any) {
+	fmt.Printf("INFRA: C12 harness: %s\n", fmt.Sprintf(format, args...))
+	h.close()
+	if parent := filepath.Dir(h.dir); strings.HasPrefix(filepath.Base(parent), "verif-") {
+		os.RemoveAll(parent)
+	}
+	os.Exit(2)
 }
 
 func (h *harness) failf(format string, args ...any) {
@@ -206,7 +218,7 @@ func (h *harness) verify(when string) {
 			h.failf("%s: full scan of %s failed: %v", when, t.name, err)
 		}
 		if !res.PK {
-			h.rt.Fatalf("harness: %q was not served by the primary index (%q)", q, res.Index)
+			h.infra("%q was not served by the primary index (%q)", q, res.Index)
 		}
 		if len(res.Cols) != len(t.cols) {
 			h.failf("%s: table %s has columns %v, the reference has %d columns (effects of a failed/rolled-back DDL visible?)", when, t.name, res.Cols, len(t.cols))
@@ -517,7 +529,7 @@ func (h *harness) runTx(later map[string]*[]index, allowDDL bool) {
 		h.noteResult(s.tbl, &o, err)
 		if err != nil {
 			if errors.Is(err, sql.ErrParsingError) {
-				rt.Fatalf("harness: generated statement does not parse: %s: %v", s.text, err)
+				h.infra("generated statement does not parse: %s: %v", s.text, err)
 			}
 			if s.kind == kInsert && s.nAuto > 0 && errors.Is(err, store.ErrKeyAlreadyExists) && tx != nil {
 				// which key did the engine generate for the row it refused?
@@ -606,7 +618,7 @@ func (h *harness) runTx(later map[string]*[]index, allowDDL bool) {
 		_, committed, err := h.exec(nil, text, args)
 		h.logf("%s %v -> %s", text, args, short(err))
 		if err != nil && errors.Is(err, sql.ErrParsingError) {
-			rt.Fatalf("harness: generated block does not parse: %s: %v", text, err)
+			h.infra("generated block does not parse: %s: %v", text, err)
 		}
 		var firstMust *outcome
 		for i := range outs {
